@@ -259,6 +259,9 @@ class JSONSerialization(Serialization):
         try:
             allowed_types = [{'type': cls.json_schema_literal_types[type(obj)]}
                              for obj in p.objects.values()]
+            if not allowed_types:
+                # "anyOf" must not be empty; nothing is known about the objects
+                return {}
             schema = {'anyOf': allowed_types}
             schema['enum'] = p.objects
             return schema
